@@ -570,6 +570,23 @@ impl NameResolution {
                 let traits = traits
                     .iter()
                     .map(|path| {
+                        // a bound is a use of the trait's package like any other type position:
+                        // this file has to import it
+                        if path.len() > 1 {
+                            let qualified: hir::QualifiedPath = path.into();
+                            if let Some(package) = &qualified.package
+                                && !package_allowed(
+                                    package.as_str(),
+                                    ctx.current_package,
+                                    ctx.imports,
+                                )
+                            {
+                                self.error(format!(
+                                    "package {} not imported in package {}",
+                                    package.0, ctx.current_package
+                                ));
+                            }
+                        }
                         hir::Path::new(path.segments().iter().map(hir::PathSegment::from).collect())
                     })
                     .collect::<Vec<_>>();
